@@ -111,6 +111,8 @@ structure St (R : Type) where
   cbLoaded : Bool := false
   /-- admitted entries that have not exited -/
   reqs : List Req := []
+  /-- ids of all `entry` ops so far (an id is used once per case) -/
+  used : List Nat := []
   /-- listener callbacks not yet shown -/
   evs : List CB.Ev := []
 
@@ -158,6 +160,11 @@ def flowExit (f : FlowReject.St) (res now : Nat) (err : Bool) : FlowReject.St :=
 
 /-! ## `SlotChain.Entry` -/
 
+/-- the breaker slot's result as a block -/
+def cbBlk : Option (Option Nat) → Option Blk
+  | some (some k) => some (Blk.cb k)
+  | _ => none
+
 section code
 variable [LT R] [∀ a b : R, Decidable (a < b)]
 
@@ -180,8 +187,7 @@ def checkSlot (A : System.Arith R) (k : Slot) (s : St R) (q : Req) : St R × Opt
     -- the breaker slot is the last one: its verdict is the chain's, so `doEntry` (TryPass of every breaker of the
     -- resource; on a block the exit hooks roll the probes back) is the whole story for this component
     let r := CB.doEntry s.cb q.id (rname q.res)
-    ({ s with cb := r.1, evs := s.evs ++ r.2.evs },
-     match r.2.dec with | some (some k) => some (Blk.cb k) | _ => none)
+    ({ s with cb := r.1, evs := s.evs ++ r.2.evs }, cbBlk r.2.dec)
 
 /-- the rule-check loop of `SlotChain.Entry`: slots in slice order, `break` at the first blocked result -/
 def ruleLoop (A : System.Arith R) : List Slot → St R → Req → St R × Option Blk
@@ -206,7 +212,7 @@ def statPhase (s : St R) (q : Req) (d : Option Blk) : St R :=
 /-- `api.Entry` on the global chain -/
 def entry (A : System.Arith R) (s : St R) (q : Req) : St R × Option Blk :=
   let r := ruleLoop A ruleSlots (prepare s q) q
-  (statPhase r.1 q r.2, r.2)
+  ({ statPhase r.1 q r.2 with used := q.id :: s.used }, r.2)
 
 end code
 
@@ -222,19 +228,21 @@ def ctxErr (s : St R) (id : Nat) (err : Bool) : Bool :=
 
 def trace (s : St R) (id : Nat) : St R := entStep s (.trace (rid id) (some "biz"))
 
-/-- `entry.Exit()` / `entry.Exit(WithError(biz))`: `OnCompleted` of every statistic slot for an admitted live entry -/
+/-- `entry.Exit()` / `entry.Exit(WithError(biz))`: `OnCompleted` of every statistic slot for an admitted live entry.
+    For any other id (blocked, already exited, unknown) nothing happens (`sync.Once`, `ctx.IsBlocked()`): every module model
+    has that no-op built in (`Entry.apiExit`, `Iso.step (.exit …)`, `HotConc.exit`, `CB.doExit` on an id that is not live), so
+    their exit steps are applied unconditionally; only the flow copy of the node is keyed on `reqs`. -/
 def exit (s : St R) (id : Nat) (err : Bool) : St R :=
-  match s.reqs.find? (·.id = id) with
-  | none => entStep s (.exit (rid id) (errOf err))       -- blocked, exited or unknown: nothing happens (`sync.Once`)
-  | some q =>
-    let e := ctxErr s id err
-    let s1 := entStep s (.exit (rid id) (errOf err))
-    let c := CB.doExit CB.laOps s1.cb id e
-    { s1 with flow := flowExit s1.flow q.res s1.now e,
-              iso := (Iso.step s1.iso (.exit id)).1,
-              hot := HotConc.exit s1.hot (toString id),
-              cb := c.1, evs := s1.evs ++ c.2.evs,
-              reqs := s1.reqs.filter (·.id ≠ id) }
+  let e := ctxErr s id err
+  let s1 := entStep s (.exit (rid id) (errOf err))
+  let c := CB.doExit CB.laOps s1.cb id e
+  { s1 with flow := (match s.reqs.find? (·.id = id) with
+                     | some q => flowExit s1.flow q.res s1.now e
+                     | none => s1.flow),
+            iso := (Iso.step s1.iso (.exit id)).1,
+            hot := HotConc.exit s1.hot (toString id),
+            cb := c.1, evs := s1.evs ++ c.2.evs,
+            reqs := s1.reqs.filter (·.id ≠ id) }
 
 /-! ## loading -/
 
@@ -281,8 +289,8 @@ inductive Out
   | log (evs : List CB.Ev)
 deriving Repr
 
-/-- is `id` in use in the ledger (an entry op with this id happened)? -/
-def usedId (s : St R) (id : Nat) : Bool := (Entry.findE s.ent.ents (rid id)).isSome
+/-- has an `entry` op with this id happened? -/
+def usedId (s : St R) (id : Nat) : Bool := s.used.contains id
 
 section step
 variable [LT R] [∀ a b : R, Decidable (a < b)]
@@ -400,7 +408,7 @@ def specEntry (A : System.Arith R) (s : SpecSt R) (q : Req) : SpecSt R × Option
     | some b => (s.cb, [], some b)
     | none =>
       let r := CB.doEntry s.cb q.id rn
-      (r.1, r.2.evs, match r.2.dec with | some (some k) => some (Blk.cb k) | _ => none)
+      (r.1, r.2.evs, cbBlk r.2.dec)
   let s1 := specPush { s with cb := cb1, evs := s.evs ++ evs1, used := q.id :: s.used } (entryOp q d.isSome)
   match d with
   | some _ => ({ s1 with sys := if q.inbound then System.onBlocked s1.sys q.batch else s1.sys }, d)
